@@ -468,6 +468,14 @@ fn history_streams() -> Vec<Vec<u8>> {
     let lz11 = ref_lz::encode(&with_ref, Kind::Lz11, 309, None);
     let mut v = vec![vec![], vec![0x10], lz10.clone(), lz11.clone(), wrap13(&lz11), vec![0, 0, 0, 0, 9, 9], lz10[..lz10.len() - 1].to_vec(), ref_lz::encode(&[Token::Lit(1), Token::Ref { len: 3, disp: 1 }], Kind::Lz10, 4, Some((1, 5))), ref_lz::encode(&[], Kind::Lz11, 0, None)];
     v.push(ref_lz::encode(&lits, Kind::Lz10, 9, None));
+    // two streams of equal length with the same first and last bytes and one different byte in
+    // the middle (a result cached under a cheap fingerprint of the previous stream would be reused)
+    for kind in [Kind::Lz10, Kind::Lz11] {
+        let mut a: Vec<Token> = (0..600).map(|i| Token::Lit((i * 7 % 251) as u8)).collect();
+        v.push(ref_lz::encode(&a, kind, 600, None));
+        a[300] = Token::Lit(0xEE);
+        v.push(ref_lz::encode(&a, kind, 600, None));
+    }
     v
 }
 
